@@ -48,8 +48,9 @@ def _get_uses_of(node: ast.AST, scope: ast.AST, source: str) -> Iterable[ast.Nam
             continue
         if any(core.walk(funcdef.args, ast.arg(arg=name))):
             blacklisted_names.update(core.walk(funcdef, ast.Name))
-        for child in core.walk(funcdef, ast.Name(ctx=ast.Store, id=name)):
-            blacklisted_names.update(core.walk(child, ast.Name))
+        if any(core.walk(funcdef, ast.Name(ctx=ast.Store, id=name))):
+            # The name is a local variable of that function
+            blacklisted_names.update(core.walk(funcdef, ast.Name))
 
     augass_candidates = {
         target
